@@ -1,6 +1,6 @@
 """C01 -- Galerkin entries equal the 4-fold heat-kernel integral.
 Structure of the computation (DESIGN.md E2, E3, E4)."""
-from .. import causal, kernels, panels
+from .. import quadalg, causal, kernels, panels
 from ..cas import run_tasks
 
 LEVEL = 'other'
@@ -32,6 +32,7 @@ META = {
 
 def run(prog, report, tier):
     panels.check_sym(prog, report)
+    quadalg.check_mirrors(prog, report)
     panels.check_integrate(prog, report)
     panels.check_exact_splitter(prog, report)
     panels.check_binding(prog, report)
